@@ -132,7 +132,12 @@ CHECKS = {
     "C08": dict(
         text="Lean theorems over all pattern lists, names and match matrices (spec, permutation and duplicate "
              "invariance, monotonicity with the exact guards); model tied to build_filtering_func by exhaustive "
-             "small-scope + random correspondence; the property's sentence is monitored on the real results.",
+             "small-scope + random correspondence; the property's sentence is monitored on the real results. The glue "
+             "in front of the predicate is modelled too (Model/Options = get_options' handling of -t, -m, the positional "
+             "filters and the default ['.']): the predicate gets exactly the patterns given, ['.'] only when none was "
+             "(C08O_test_given, C08O_module_given, C08O_test_kept), tied to the real get_options on every combination of "
+             "0-2 option values and 0-2 positional filters; the uses of the predicate (--module gate before import, "
+             "--test in tests_from_suite, --layer in Filter.global_setup) are run on generated trees and suites.",
         note="regex engine abstract (match matrix from CPython re); end-to-end use of the predicate is covered by C03",
         technique="Lean 4 theorems on hand-written model + differential correspondence with real build_filtering_func",
         design="§5 C08"),
